@@ -6,40 +6,226 @@ From CsProto Require Import Schema GenMarshal RefMsg GenStmts GenUnmarshal GenLe
 Local Open Scope N_scope.
 
 Lemma bytes_eqb_eq a b : bytes_eqb a b = true -> a = b.
-Proof. Admitted.
+Proof.
+  unfold bytes_eqb. revert b.
+  induction a as [|x a IH]; intros [|y b] H; cbn [length combine forallb Nat.eqb andb] in H; try discriminate H.
+  - reflexivity.
+  - apply andb_prop in H. destruct H as [Hl H]. apply andb_prop in H. destruct H as [Hx Hf].
+    apply N.eqb_eq in Hx. subst y. f_equal. apply IH. rewrite Hl, Hf. reflexivity.
+Qed.
 
 Lemma forallb_bytes_ok b : forallb (fun x => x <? 256) b = true -> bytes_ok b.
-Proof. Admitted.
+Proof.
+  intros H. unfold bytes_ok. apply Forall_forall. intros x Hin.
+  rewrite forallb_forall in H. apply N.ltb_lt. exact (H x Hin).
+Qed.
 
 Lemma rfield_wfb_wf f : rfield_wfb f = true -> rfield_wf f.
-Proof. Admitted.
+Proof.
+  unfold rfield_wfb, rfield_wf. intros H.
+  apply andb_prop in H. destruct H as [H Hp]. apply andb_prop in H. destruct H as [H1 H2].
+  apply N.leb_le in H1. apply N.leb_le in H2. unfold max_tag in H2.
+  split; [split; assumption|].
+  destruct f as [num v|num b|num b|num b].
+  - apply N.ltb_lt. exact Hp.
+  - apply andb_prop in Hp. destruct Hp as [Hl _]. apply Nat.eqb_eq. exact Hl.
+  - apply andb_prop in Hp. destruct Hp as [Hl _]. apply Nat.eqb_eq. exact Hl.
+  - apply andb_prop in Hp. destruct Hp as [Hl _]. apply N.leb_le in Hl. exact Hl.
+Qed.
 
 Lemma rfield_wfb_payload f : rfield_wfb f = true ->
   match f with RVarint _ _ => True | RFixed64 _ b | RFixed32 _ b | RLen _ b => bytes_ok b end.
-Proof. Admitted.
+Proof.
+  unfold rfield_wfb. intros H. apply andb_prop in H. destruct H as [_ Hp].
+  destruct f as [num v|num b|num b|num b]; [exact I| | |];
+    apply andb_prop in Hp; destruct Hp as [_ Hb]; apply forallb_bytes_ok; exact Hb.
+Qed.
 
 (* the key of a canonical field at the cursor *)
 Lemma dec_tag_renc B off fast f rest : rfield_wf f -> skipn off B = renc f ++ rest ->
   at_eof (mk B off fast) = false /\
   dec_tag (mk B off fast) = DOk (rnum f, rwt f) (mk B (off + length (rkey f)) fast) /\
   skipn (off + length (rkey f)) B = rpayload f ++ rest.
-Proof. Admitted.
+Proof.
+  intros Hwf Hs. pose proof Hwf as [Hn _]. pose proof (rwt_lt8 f) as Hw.
+  pose proof (rkey_enc f Hwf) as Hkey.
+  assert (Hs' : skipn off B = enc_key (rnum f) (rwt f) ++ rpayload f ++ rest).
+  { rewrite Hs. unfold renc. rewrite Hkey, <- app_assoc. reflexivity. }
+  destruct (app_nonnil_len (enc_key (rnum f) (rwt f)) (rpayload f ++ rest)
+              ltac:(unfold enc_key; apply enc_varint_pos)) as (a & r & Hnn).
+  pose proof Hs' as Hs0. rewrite Hnn in Hs0.
+  split; [exact (at_eof_false B off fast a r Hs0)|]. rewrite Hkey. split.
+  - apply dec_tag_ok with (rest := rpayload f ++ rest); [exact Hn|exact Hw|exact Hs'].
+  - apply skipn_app_step. exact Hs'.
+Qed.
 
-(* Skip after the key: the whole field, which is the slice the generated code appends *)
 Lemma dec_skip_renc B off fast f rest : rfield_wf f -> skipn off B = renc f ++ rest ->
   dec_skip (mk B (off + length (rkey f)) fast) (Z.of_N (rnum f)) (Z.of_N (rwt f))
     = DOk (renc f) (mk B (off + length (renc f)) fast) /\
   slice B off (off + length (renc f)) = renc f.
-Proof. Admitted.
+Proof.
+  intros Hwf Hs. split; [apply dec_skip_ok with (rest := rest); assumption|].
+  apply slice_at with (y := rest). exact Hs.
+Qed.
+
+(* ---------- arithmetic ---------- *)
+Lemma uw_i64n_sgn n : n < 2^64 -> i64n n = sgn 64 n /\ (- 2^63 <= sgn 64 n < 2^63)%Z.
+Proof.
+  intros Hn. destruct (N.lt_ge_cases n (2^63)) as [Hlo|Hhi].
+  - rewrite i64n_lo by exact Hlo.
+    rewrite (sgn_gen 64 n (Z.of_N n) 0 pow64_split); [split; [reflexivity|lia]| |lia].
+    change (64 - 1)%Z with 63%Z. lia.
+  - rewrite i64n_hi by (split; assumption).
+    rewrite (sgn_gen 64 n (Z.of_N n - 2^64) 1 pow64_split); [split; [reflexivity|lia]| |lia].
+    change (64 - 1)%Z with 63%Z. lia.
+Qed.
+
+Lemma uw_i32n_sgn n : n < 2^32 -> i32n n = sgn 32 n /\ (- 2^31 <= sgn 32 n < 2^31)%Z.
+Proof.
+  intros Hn. destruct (N.lt_ge_cases n (2^31)) as [Hlo|Hhi].
+  - rewrite i32n_lo by exact Hlo.
+    rewrite (sgn_gen 32 n (Z.of_N n) 0 pow32_split); [split; [reflexivity|lia]| |lia].
+    change (32 - 1)%Z with 31%Z. lia.
+  - rewrite i32n_hi by (split; assumption).
+    rewrite (sgn_gen 32 n (Z.of_N n - 2^32) 1 pow32_split); [split; [reflexivity|lia]| |lia].
+    change (32 - 1)%Z with 31%Z. lia.
+Qed.
+
+(* a sign-extended int32 on the wire *)
+Lemma uw_int32_wire v : v < 2^31 \/ (2^64 - 2^31 <= v /\ v < 2^64) ->
+  i64n v = sgn 32 v /\ (- 2^31 <= sgn 32 v < 2^31)%Z.
+Proof.
+  intros [Hlo|[Hhi Hlt]].
+  - rewrite i64n_lo by lia.
+    rewrite (sgn_gen 32 v (Z.of_N v) 0 pow32_split); [split; [reflexivity|lia]| |lia].
+    change (32 - 1)%Z with 31%Z. lia.
+  - rewrite i64n_hi by lia.
+    rewrite (sgn_gen 32 v (Z.of_N v - 2^64) (2^32) pow32_split); [split; [reflexivity|lia]| |lia].
+    change (32 - 1)%Z with 31%Z. lia.
+Qed.
+
+Lemma uw_unzigzag_range u M : (Z.of_N u < 2 * M)%Z -> (- M <= unzigzag u < M)%Z.
+Proof.
+  intros Hu. unfold unzigzag.
+  pose proof (N.div_mod' u 2) as H1. pose proof (N.mod_lt u 2 ltac:(lia)) as H2.
+  pose proof (N.div_mod' (u + 1) 2) as H3. pose proof (N.mod_lt (u + 1) 2 ltac:(lia)) as H4.
+  set (q := u / 2) in *. set (r := u mod 2) in *.
+  set (q' := (u + 1) / 2) in *. set (r' := (u + 1) mod 2) in *.
+  destruct (N.even u); lia.
+Qed.
+
+Lemma uw_le_val_lt b : bytes_ok b -> le_val b < 256 ^ N.of_nat (length b).
+Proof.
+  induction 1 as [|x b Hx Hb IH]; cbn [le_val length].
+  - change (256 ^ N.of_nat 0) with 1. lia.
+  - rewrite Nat2N.inj_succ, N.pow_succ_r'. set (P := 256 ^ N.of_nat (length b)) in *. lia.
+Qed.
 
 (* the typed readers agree with the textbook readings on writer-emittable wire values *)
 Lemma of_wire_typed_varint k v : wt_of k = 0 -> wire_in_range k v = true ->
   v < 2^64 /\ of_wire k v = Some (typed_of_wire k v) /\ in_dom k (typed_of_wire k v) = true.
-Proof. Admitted.
+Proof.
+  intros Hwt Hr.
+  destruct k; cbn [wt_of] in Hwt; try discriminate Hwt; clear Hwt;
+    cbn [wire_in_range] in Hr; cbn [of_wire typed_of_wire in_dom].
+  - (* bool *) apply N.ltb_lt in Hr. split; [exact Hr|]. split; [reflexivity|].
+    destruct (v =? 0); reflexivity.
+  - (* int32 *)
+    assert (Hc : v < 2^31 \/ (2^64 - 2^31 <= v /\ v < 2^64)).
+    { apply orb_prop in Hr. destruct Hr as [H|H]; [left; apply N.ltb_lt; exact H|right].
+      apply andb_prop in H. destruct H as [H1 H2]. apply N.leb_le in H1. apply N.ltb_lt in H2.
+      split; assumption. }
+    destruct (uw_int32_wire v Hc) as [He Hrg].
+    split; [destruct Hc as [Hc|[_ Hc]]; [lia|exact Hc]|].
+    cbv zeta. rewrite He. set (s := sgn 32 v) in *.
+    change (- 2^31)%Z with (-2147483648)%Z in *. change (2^31)%Z with 2147483648%Z in *.
+    destruct (Z.ltb_spec 2147483647 s) as [H1|H1]; [lia|].
+    destruct (Z.ltb_spec s (-2147483648)) as [H2|H2]; [lia|].
+    cbn [orb]. split; [reflexivity|lia].
+  - (* int64 *) apply N.ltb_lt in Hr. destruct (uw_i64n_sgn v Hr) as [He Hrg].
+    split; [exact Hr|]. rewrite He. split; [reflexivity|lia].
+  - (* uint32 *) apply N.ltb_lt in Hr. split; [lia|].
+    rewrite N.mod_small by exact Hr.
+    destruct (N.ltb_spec 4294967295 v) as [H1|H1]; [lia|]. split; [reflexivity|lia].
+  - (* uint64 *) apply N.ltb_lt in Hr. split; [exact Hr|].
+    rewrite N.mod_small by exact Hr. split; [reflexivity|lia].
+  - (* sint32 *) apply N.ltb_lt in Hr. split; [lia|].
+    rewrite dec_zz32_unzig. split; [reflexivity|].
+    rewrite N.mod_small by exact Hr.
+    pose proof (uw_unzigzag_range v (2^31)%Z ltac:(lia)) as Hu. lia.
+  - (* sint64 *) apply N.ltb_lt in Hr. split; [exact Hr|].
+    rewrite dec_zz64_unzig by exact Hr. rewrite N.mod_small by exact Hr. split; [reflexivity|].
+    pose proof (uw_unzigzag_range v (2^63)%Z ltac:(lia)) as Hu. lia.
+Qed.
 
 Lemma of_wire_typed_fixed k b : wt_of k <> 0 -> length b = width_of k -> bytes_ok b ->
   of_wire k (le_val b) = Some (typed_of_wire k (le_val b)) /\ in_dom k (typed_of_wire k (le_val b)) = true.
-Proof. Admitted.
+Proof.
+  intros Hwt Hl Hb. pose proof (uw_le_val_lt b Hb) as Hlt. rewrite Hl in Hlt.
+  set (n := le_val b) in *.
+  destruct k; cbn [wt_of] in Hwt; try (exfalso; apply Hwt; reflexivity); clear Hwt;
+    cbn [width_of] in Hlt; cbn [of_wire typed_of_wire in_dom];
+    try change (256 ^ N.of_nat 4) with (2^32) in Hlt; try change (256 ^ N.of_nat 8) with (2^64) in Hlt.
+  - rewrite N.mod_small by exact Hlt. split; [reflexivity|lia].
+  - rewrite N.mod_small by exact Hlt. split; [reflexivity|lia].
+  - destruct (uw_i32n_sgn n Hlt) as [He Hrg]. rewrite He. split; [reflexivity|lia].
+  - destruct (uw_i64n_sgn n Hlt) as [He Hrg]. rewrite He. split; [reflexivity|lia].
+  - rewrite N.mod_small by exact Hlt. split; [reflexivity|lia].
+  - rewrite N.mod_small by exact Hlt. split; [reflexivity|lia].
+Qed.
+
+(* ---------- decoder plumbing ---------- *)
+Lemma uw_dv_ref v rest : v < 2^64 -> dec_varint (ref_varint v ++ rest) = inl (v, length (ref_varint v)).
+Proof. intros H. rewrite <- varint_canonical by exact H. apply dec_enc_varint. exact H. Qed.
+
+Lemma uw_off_lt B off (x rest : list N) : (1 <= length x)%nat -> skipn off B = x ++ rest -> (off < length B)%nat.
+Proof.
+  intros Hx Hs. destruct (app_nonnil_len x rest Hx) as (a & r & Hnn). rewrite Hnn in Hs.
+  eapply skipn_cons_lt. exact Hs.
+Qed.
+
+Lemma uw_wt0_varint k : wt_of k = 0 -> is_varint_kind k = true.
+Proof. destruct k; cbn [wt_of]; intros H; try discriminate H; reflexivity. Qed.
+Lemma uw_wtn0_width k : wt_of k <> 0 ->
+  is_varint_kind k = false /\ (wt_of k = 5 /\ width_of k = 4%nat \/ wt_of k = 1 /\ width_of k = 8%nat).
+Proof.
+  destruct k; cbn [wt_of width_of]; intros H; try (exfalso; apply H; reflexivity);
+    (split; [reflexivity|]); (left; split; reflexivity) || (right; split; reflexivity).
+Qed.
+
+Lemma uw_read_elem_varint {A} k v n (d : decoder) p (kont : option (Z * nat) -> dres A) :
+  wt_of k = 0 -> wire_in_range k v = true -> dec_varint p = inl (v, n) ->
+  read_elem k d p kont = kont (Some (typed_of_wire k v, n)).
+Proof.
+  intros Hwt Hr Hd. destruct (of_wire_typed_varint k v Hwt Hr) as (_ & Hof & _).
+  unfold read_elem. rewrite (uw_wt0_varint k Hwt), Hd, Hof. reflexivity.
+Qed.
+
+Lemma uw_read_elem_fixed {A} k (d : decoder) p (kont : option (Z * nat) -> dres A) :
+  wt_of k <> 0 -> (width_of k <= length p)%nat -> (length p <= length (dbuf d) - doff d)%nat ->
+  bytes_ok (firstn (width_of k) p) ->
+  read_elem k d p kont = kont (Some (typed_of_wire k (le_val (firstn (width_of k) p)), width_of k)).
+Proof.
+  intros Hwt Hw Hroom Hb.
+  destruct (of_wire_typed_fixed k (firstn (width_of k) p) Hwt (firstn_length_le p Hw) Hb) as [Hof _].
+  destruct (uw_wtn0_width k Hwt) as [Hv _].
+  unfold read_elem. rewrite Hv. cbv zeta.
+  set (w := width_of k) in *.
+  destruct (Nat.ltb_spec (length p) w) as [Hc|_]; [lia|].
+  destruct (Nat.ltb_spec (length (dbuf d) - doff d) w) as [Hc|_]; [lia|].
+  unfold go_le. destruct (Nat.ltb_spec (length p) w) as [Hc|_]; [lia|].
+  rewrite Hof. destruct k; reflexivity.
+Qed.
+
+Lemma uw_dec_scalar_unf B off fast k : (off < length B)%nat ->
+  dec_scalar (mk B off fast) k =
+  read_elem k (mk B off fast) (skipn off B) (fun r =>
+    match r with None => DErr (mk B off fast) | Some (z, n) => DOk z (mk B (off + n) fast) end).
+Proof.
+  intros Hlt. unfold dec_scalar, at_eof. cbn [mk dbuf doff].
+  destruct (Nat.leb_spec (length B) off) as [Hc|_]; [lia|].
+  rewrite go_from_ok by lia. reflexivity.
+Qed.
 
 (* one scalar occurrence *)
 Lemma dec_scalar_legal B off fast k f rest : rfield_wfb f = true -> scalar_legal k f = true ->
@@ -47,26 +233,206 @@ Lemma dec_scalar_legal B off fast k f rest : rfield_wfb f = true -> scalar_legal
   rwt f = wt_of k /\
   exists z, scalar_of_field k f = Some z /\ in_dom k z = true /\
     dec_scalar (mk B off fast) k = DOk z (mk B (off + length (rpayload f)) fast).
-Proof. Admitted.
+Proof.
+  intros Hwfb Hleg Hs.
+  pose proof (rfield_wfb_wf f Hwfb) as [_ Hwf]. pose proof (rfield_wfb_payload f Hwfb) as Hpay.
+  destruct f as [num v|num b|num b|num b]; cbn [scalar_legal rwt rpayload rvalue scalar_of_field] in *.
+  - (* varint *)
+    apply andb_prop in Hleg. destruct Hleg as [Hwt Hr]. apply N.eqb_eq in Hwt.
+    destruct (of_wire_typed_varint k v Hwt Hr) as (Hv & _ & Hdom).
+    split; [symmetry; exact Hwt|]. exists (typed_of_wire k v).
+    rewrite Hwt, N.eqb_refl. split; [reflexivity|]. split; [exact Hdom|].
+    pose proof (uw_off_lt B off _ rest (ref_varint_pos' v) Hs) as Hlt.
+    rewrite uw_dec_scalar_unf by exact Hlt.
+    rewrite (uw_read_elem_varint k v (length (ref_varint v))); [reflexivity|exact Hwt|exact Hr|].
+    rewrite Hs. apply uw_dv_ref. exact Hv.
+  - (* fixed64 *)
+    apply N.eqb_eq in Hleg. assert (Hne : wt_of k <> 0) by (rewrite Hleg; discriminate).
+    destruct (uw_wtn0_width k Hne) as [_ [[Hc _]|[_ Hwd]]]; [rewrite Hleg in Hc; discriminate Hc|].
+    destruct (of_wire_typed_fixed k b Hne ltac:(lia) Hpay) as [_ Hdom].
+    split; [symmetry; exact Hleg|]. exists (typed_of_wire k (le_val b)).
+    rewrite Hleg, N.eqb_refl. split; [reflexivity|]. split; [exact Hdom|].
+    pose proof (uw_off_lt B off b rest ltac:(lia) Hs) as Hlt.
+    pose proof (skipn_len_eq off B _ Hs ltac:(lia)) as HlenB. rewrite app_length in HlenB.
+    assert (Hf : firstn (width_of k) (b ++ rest) = b) by (rewrite Hwd, <- Hwf; apply firstn_app_exact).
+    rewrite uw_dec_scalar_unf by exact Hlt. rewrite Hs.
+    rewrite uw_read_elem_fixed; [rewrite Hf, Hwd, Hwf; reflexivity|exact Hne| | |rewrite Hf; exact Hpay].
+    + rewrite app_length. lia.
+    + cbn [mk dbuf doff]. rewrite app_length. lia.
+  - (* fixed32 *)
+    apply N.eqb_eq in Hleg. assert (Hne : wt_of k <> 0) by (rewrite Hleg; discriminate).
+    destruct (uw_wtn0_width k Hne) as [_ [[_ Hwd]|[Hc _]]]; [|rewrite Hleg in Hc; discriminate Hc].
+    destruct (of_wire_typed_fixed k b Hne ltac:(lia) Hpay) as [_ Hdom].
+    split; [symmetry; exact Hleg|]. exists (typed_of_wire k (le_val b)).
+    rewrite Hleg, N.eqb_refl. split; [reflexivity|]. split; [exact Hdom|].
+    pose proof (uw_off_lt B off b rest ltac:(lia) Hs) as Hlt.
+    pose proof (skipn_len_eq off B _ Hs ltac:(lia)) as HlenB. rewrite app_length in HlenB.
+    assert (Hf : firstn (width_of k) (b ++ rest) = b) by (rewrite Hwd, <- Hwf; apply firstn_app_exact).
+    rewrite uw_dec_scalar_unf by exact Hlt. rewrite Hs.
+    rewrite uw_read_elem_fixed; [rewrite Hf, Hwd, Hwf; reflexivity|exact Hne| | |rewrite Hf; exact Hpay].
+    + rewrite app_length. lia.
+    + cbn [mk dbuf doff]. rewrite app_length. lia.
+  - discriminate Hleg.
+Qed.
 
 (* length-delimited payloads *)
+Lemma uw_len_facts num b : rfield_wfb (RLen num b) = true ->
+  N.of_nat (length b) <= max_len /\ bytes_ok b /\
+  ref_varint (N.of_nat (length b)) = enc_varint (N.of_nat (length b)) /\
+  length (rpayload (RLen num b)) = (length (ref_varint (N.of_nat (length b))) + length b)%nat.
+Proof.
+  intros Hwfb. pose proof (rfield_wfb_wf _ Hwfb) as [_ Hwf]. pose proof (rfield_wfb_payload _ Hwfb) as Hpay.
+  cbn [rpayload] in *. split; [exact Hwf|]. split; [exact Hpay|]. split.
+  - symmetry. apply varint_canonical. lia.
+  - apply app_length.
+Qed.
+
 Lemma dec_bytes_legal B off fast num b rest : rfield_wfb (RLen num b) = true ->
   skipn off B = rpayload (RLen num b) ++ rest ->
   dec_bytes (mk B off fast) = DOk b (mk B (off + length (rpayload (RLen num b))) fast).
-Proof. Admitted.
+Proof.
+  intros Hwfb Hs. destruct (uw_len_facts num b Hwfb) as (Hl & _ & Hc & Hlen).
+  rewrite Hlen. cbn [rpayload] in Hs. rewrite <- app_assoc in Hs. rewrite Hc in *.
+  rewrite (dec_bytes_ok B off fast b rest Hl Hs). f_equal. apply mk_eq. lia.
+Qed.
 
 Lemma dec_nested_legal nested B off fast num b rest : rfield_wfb (RLen num b) = true ->
   skipn off B = rpayload (RLen num b) ++ rest ->
   dec_nested nested (mk B off fast)
   = if nested b then DOk b (mk B (off + length (rpayload (RLen num b))) fast) else DErr (mk B off fast).
-Proof. Admitted.
+Proof.
+  intros Hwfb Hs. destruct (uw_len_facts num b Hwfb) as (Hl & _ & Hc & Hlen).
+  rewrite Hlen. cbn [rpayload] in Hs. rewrite <- app_assoc in Hs. rewrite Hc in *.
+  rewrite (dec_nested_ok nested B off fast b rest Hl Hs).
+  destruct (nested b); [|reflexivity]. f_equal. apply mk_eq. lia.
+Qed.
+
+(* ---------- packed runs ---------- *)
+Lemma uw_packed_legal_S f k p : p <> [] ->
+  packed_legal (S f) k p =
+    if wt_of k =? 0 then
+      match ref_varint_val p, ref_varint_len p with
+      | Some v, Some n => wire_in_range k v && bytes_eqb (firstn n p) (ref_varint v) && packed_legal f k (skipn n p)
+      | _, _ => false
+      end
+    else
+      if (length p <? width_of k)%nat then false else packed_legal f k (skipn (width_of k) p).
+Proof. intros Hp. destruct p as [|x r]; [congruence|reflexivity]. Qed.
+
+Lemma uw_packed_legal_nil fuel k : packed_legal fuel k [] = true.
+Proof. destruct fuel; reflexivity. Qed.
+
+(* a canonical varint element at the head of p *)
+Lemma uw_canon_elem p v n : ref_varint_val p = Some v -> ref_varint_len p = Some n ->
+  bytes_eqb (firstn n p) (ref_varint v) = true -> v < 2^64 ->
+  p = ref_varint v ++ skipn n p /\ n = length (ref_varint v).
+Proof.
+  intros Hval Hlen Heq Hv. apply bytes_eqb_eq in Heq.
+  assert (Hp : p = ref_varint v ++ skipn n p) by (rewrite <- Heq; symmetry; apply firstn_skipn).
+  split; [exact Hp|].
+  destruct (ref_read v (skipn n p) Hv) as [_ Hl]. rewrite <- Hp in Hl. congruence.
+Qed.
+
+Lemma uw_packed_loop_legal B fast k rest : forall fuelL p off fuel nread acc,
+  bytes_ok p -> packed_legal fuelL k p = true ->
+  skipn off B = p ++ rest -> (length p < fuel)%nat ->
+  exists zs, unpack fuelL k p = Some zs /\ Forall (fun z => in_dom k z = true) zs /\
+    packed_loop fuel k (nread + N.of_nat (length p)) (mk B off fast) nread acc
+    = DOk (rev acc ++ zs) (mk B (off + length p) fast).
+Proof.
+  induction fuelL as [|f IH]; intros p off fuel nread acc Hok Hleg Hs Hfuel.
+  - destruct p as [|x r]; [|discriminate Hleg].
+    exists []. split; [reflexivity|]. split; [constructor|].
+    cbn [length]. rewrite N.add_0_r, packed_loop_done, app_nil_r. f_equal. apply mk_eq. lia.
+  - destruct p as [|x r].
+    { exists []. split; [reflexivity|]. split; [constructor|].
+      cbn [length]. rewrite N.add_0_r, packed_loop_done, app_nil_r. f_equal. apply mk_eq. lia. }
+    set (p := x :: r) in *. assert (Hne : p <> []) by discriminate.
+    assert (Hlp : (1 <= length p)%nat) by (unfold p; cbn [length]; lia).
+    pose proof (uw_off_lt B off p rest Hlp Hs) as Hlt.
+    pose proof (skipn_len_eq off B _ Hs ltac:(lia)) as HlenB. rewrite app_length in HlenB.
+    destruct fuel as [|fuel]; [lia|].
+    assert (Heof : at_eof (mk B off fast) = false).
+    { unfold at_eof. cbn [mk dbuf doff]. destruct (Nat.leb_spec (length B) off); [lia|reflexivity]. }
+    rewrite uw_packed_legal_S in Hleg by exact Hne. rewrite unpack_S by exact Hne.
+    rewrite packed_loop_step; [|lia|exact Heof].
+    cbn [mk dbuf doff]. rewrite go_from_ok by lia. rewrite Hs.
+    destruct (N.eqb_spec (wt_of k) 0) as [Hwt|Hwt].
+    + (* varint element *)
+      destruct (ref_varint_val p) as [v|] eqn:Hval; [|discriminate Hleg].
+      destruct (ref_varint_len p) as [n|] eqn:Hlen; [|discriminate Hleg].
+      apply andb_prop in Hleg. destruct Hleg as [Hleg Hrec]. apply andb_prop in Hleg. destruct Hleg as [Hr Heq].
+      destruct (of_wire_typed_varint k v Hwt Hr) as (Hv & _ & Hdom).
+      destruct (uw_canon_elem p v n Hval Hlen Heq Hv) as [Hp Hn].
+      set (q := skipn n p) in *.
+      pose proof (ref_varint_pos' v) as Hpos.
+      assert (Hlq : length p = (n + length q)%nat) by (rewrite Hp at 1; rewrite app_length; lia).
+      assert (Hs1 : skipn (off + n) B = q ++ rest).
+      { rewrite Hn. apply skipn_app_step. rewrite Hs. rewrite Hp at 1. rewrite <- app_assoc. reflexivity. }
+      destruct (IH q (off + n)%nat fuel (nread + N.of_nat n) (typed_of_wire k v :: acc)
+                  ltac:(unfold q; apply Forall_skipn; exact Hok) Hrec Hs1 ltac:(lia))
+        as (zs & Hun & Hall & Hloop).
+      exists (typed_of_wire k v :: zs). rewrite Hun. split; [reflexivity|]. split; [constructor; assumption|].
+      rewrite (uw_read_elem_varint k v n); [|exact Hwt|exact Hr|].
+      * rewrite dadv_mk.
+        replace (nread + N.of_nat (length p)) with (nread + N.of_nat n + N.of_nat (length q)) by lia.
+        rewrite Hloop. cbn [rev]. rewrite <- app_assoc. cbn [app]. f_equal. apply mk_eq. lia.
+      * rewrite Hp at 1. rewrite <- app_assoc, Hn. apply uw_dv_ref. exact Hv.
+    + (* fixed-width element *)
+      destruct (uw_wtn0_width k Hwt) as [_ Hwd].
+      set (w := width_of k) in *.
+      assert (Hw1 : (1 <= w)%nat) by (destruct Hwd as [[_ Hwd]|[_ Hwd]]; lia).
+      destruct (Nat.ltb_spec (length p) w) as [Hc|Hge]; [discriminate Hleg|].
+      set (q := skipn w p) in *.
+      assert (Hlq : length p = (w + length q)%nat) by (unfold q; rewrite skipn_length; lia).
+      assert (Hp : p = firstn w p ++ q) by (symmetry; apply firstn_skipn).
+      assert (Hfl : length (firstn w p) = w) by (apply firstn_length_le; exact Hge).
+      assert (Hfok : bytes_ok (firstn w p)) by (apply Forall_firstn; exact Hok).
+      assert (Hf : firstn w (p ++ rest) = firstn w p).
+      { rewrite Hp at 1. rewrite <- app_assoc. rewrite <- Hfl at 1. apply firstn_app_exact. }
+      assert (Hs1 : skipn (off + w) B = q ++ rest).
+      { rewrite <- Hfl at 1. apply skipn_app_step. rewrite Hs. rewrite Hp at 1. rewrite <- app_assoc. reflexivity. }
+      destruct (of_wire_typed_fixed k (firstn w p) Hwt Hfl Hfok) as [_ Hdom].
+      destruct (IH q (off + w)%nat fuel (nread + N.of_nat w) (typed_of_wire k (le_val (firstn w p)) :: acc)
+                  ltac:(unfold q; apply Forall_skipn; exact Hok) Hleg Hs1 ltac:(lia))
+        as (zs & Hun & Hall & Hloop).
+      exists (typed_of_wire k (le_val (firstn w p)) :: zs). rewrite Hun.
+      split; [reflexivity|]. split; [constructor; assumption|].
+      rewrite uw_read_elem_fixed; fold w.
+      * rewrite Hf, dadv_mk.
+        replace (nread + N.of_nat (length p)) with (nread + N.of_nat w + N.of_nat (length q)) by lia.
+        rewrite Hloop. cbn [rev]. rewrite <- app_assoc. cbn [app]. f_equal. apply mk_eq. lia.
+      * exact Hwt.
+      * rewrite app_length. lia.
+      * cbn [mk dbuf doff]. rewrite app_length. lia.
+      * rewrite Hf. exact Hfok.
+Qed.
 
 Lemma dec_packed_legal B off fast k num b rest : rfield_wfb (RLen num b) = true ->
   packed_legal (S (length b)) k b = true ->
   skipn off B = rpayload (RLen num b) ++ rest ->
   exists zs, unpack (S (length b)) k b = Some zs /\ Forall (fun z => in_dom k z = true) zs /\
     dec_packed (mk B off fast) k = DOk zs (mk B (off + length (rpayload (RLen num b))) fast).
-Proof. Admitted.
+Proof.
+  intros Hwfb Hleg Hs. destruct (uw_len_facts num b Hwfb) as (Hl & Hok & _ & Hlen).
+  rewrite Hlen. cbn [rpayload] in Hs. rewrite <- app_assoc in Hs. unfold max_len in Hl.
+  set (L := N.of_nat (length b)) in *. set (n := length (ref_varint L)) in *.
+  pose proof (uw_off_lt B off _ _ (ref_varint_pos' L) Hs) as Hlt.
+  pose proof (skipn_len_eq off B _ Hs ltac:(lia)) as HlenB. rewrite !app_length in HlenB. fold n in HlenB.
+  pose proof (skipn_app_step _ _ _ _ Hs) as Hs1. fold n in Hs1.
+  destruct (uw_packed_loop_legal B fast k rest (S (length b)) b (off + n)%nat (S (length B)) 0 []
+              Hok Hleg Hs1 ltac:(lia)) as (zs & Hun & Hall & Hloop).
+  exists zs. split; [exact Hun|]. split; [exact Hall|].
+  cbn [rev app] in Hloop. rewrite N.add_0_l in Hloop. fold L in Hloop.
+  unfold dec_packed, at_eof. cbn [mk dbuf doff].
+  destruct (Nat.leb_spec (length B) off) as [Hc|_]; [lia|].
+  rewrite go_from_ok by lia. rewrite Hs, uw_dv_ref by (unfold L; lia). fold n.
+  cbv zeta. rewrite !dadv_mk.
+  replace (off + (n + length b))%nat with (off + n + length b)%nat by lia.
+  destruct k; try exact Hloop.
+  cbn [mk dbuf doff].
+  destruct (N.ltb_spec (N.of_nat (length B - (off + n))) L) as [Hc|_]; [unfold L in Hc; lia|exact Hloop].
+Qed.
 
 (* the map-entry header: DecodeUInt32 reads the entry size *)
 Lemma dec_len_legal B off fast num b rest : rfield_wfb (RLen num b) = true ->
@@ -76,4 +442,22 @@ Lemma dec_len_legal B off fast num b rest : rfield_wfb (RLen num b) = true ->
   skipn (off + length (ref_varint (N.of_nat (length b)))) B = b ++ rest /\
   (off + length (ref_varint (N.of_nat (length b))) + length b <= length B)%nat /\
   length (rpayload (RLen num b)) = (length (ref_varint (N.of_nat (length b))) + length b)%nat.
-Proof. Admitted.
+Proof.
+  intros Hwfb Hs. destruct (uw_len_facts num b Hwfb) as (Hl & Hok & _ & Hlen).
+  cbn [rpayload] in Hs. rewrite <- app_assoc in Hs. unfold max_len in Hl.
+  set (L := N.of_nat (length b)) in *. set (n := length (ref_varint L)) in *.
+  pose proof (uw_off_lt B off _ _ (ref_varint_pos' L) Hs) as Hlt.
+  pose proof (skipn_len_eq off B _ Hs ltac:(lia)) as HlenB. rewrite !app_length in HlenB. fold n in HlenB.
+  pose proof (skipn_app_step _ _ _ _ Hs) as Hs1. fold n in Hs1.
+  split; [|split; [exact Hs1|split; [lia|exact Hlen]]].
+  assert (Hr : wire_in_range KUInt32 L = true) by (cbn [wire_in_range]; apply N.ltb_lt; lia).
+  rewrite uw_dec_scalar_unf by exact Hlt.
+  rewrite (uw_read_elem_varint KUInt32 L n); [|reflexivity|exact Hr|rewrite Hs; apply uw_dv_ref; lia].
+  cbn [typed_of_wire]. rewrite N.mod_small by lia. unfold L. rewrite nat_N_Z. reflexivity.
+Qed.
+
+Print Assumptions dec_scalar_legal.
+Print Assumptions dec_packed_legal.
+Print Assumptions dec_nested_legal.
+Print Assumptions dec_skip_renc.
+Print Assumptions dec_len_legal.
